@@ -123,6 +123,12 @@ int Util::parseSize(const std::string& input, int64_t* output) {
       default:
         return -1;
     }
+    // NaN, infinities and totals of 4 EiB or more are not sizes (and would
+    // make the conversion to an integer undefined)
+    constexpr double kMaxSize = 4611686018427387904.0; // 2^62
+    if (!(v < kMaxSize) || !(size + v < kMaxSize)) {
+      return -1;
+    }
     size += v;
     pos = unit_pos + 1;
   }
